@@ -304,7 +304,8 @@ func runnerSrc(gp *GenParser) string {
 	sb.WriteString("\tvar sb strings.Builder\n\tdefer func() { if r := recover(); r != nil { out = sb.String() + \"panic\" } }()\n")
 	fmt.Fprintf(&sb, "\tvar l %s.Lexer\n\tl.Init(text)\n\tvar p %s.Parser\n", name, name)
 	if gp.Opts.Cancellable {
-		sb.WriteString("\tctx, cancel := context.WithCancel(context.Background())\n\tdefer cancel()\n\tevents := 0\n")
+		// a context of our own whose error is NOT context.Canceled: "the context's error" must come from ctx.Err()
+		sb.WriteString("\tctx := &stopCtx{Context: context.Background(), done: make(chan struct{})}\n\tcancel := func() { if ctx.err == nil { ctx.err = errStop; close(ctx.done) } }\n\tdefer cancel()\n\tevents := 0\n")
 	}
 	listener := fmt.Sprintf("func(t %s.NodeType, s, e int) { fmt.Fprintf(&sb, \"%%d:%%d:%%d \", int(t), s, e)", name)
 	if gp.Opts.Cancellable {
@@ -376,6 +377,7 @@ func (b *Batch) Build() error {
 		fmt.Fprintf(&main, "\t%s \"gp/%s\"\n", gp.Name, gp.Name)
 	}
 	main.WriteString(")\n\nvar _ = context.Background\n\n")
+	main.WriteString("type stopCtx struct {\n\tcontext.Context\n\tdone chan struct{}\n\terr  error\n}\n\nfunc (c *stopCtx) Done() <-chan struct{} { return c.done }\nfunc (c *stopCtx) Err() error          { return c.err }\n\ntype stopErr struct{}\n\nfunc (stopErr) Error() string { return \"ctxstop\" }\n\nvar errStop error = stopErr{}\n\n")
 	for _, gp := range b.Parsers {
 		for fn, content := range gp.Files {
 			p := filepath.Join(b.Dir, gp.Name, fn)
